@@ -1,3 +1,3 @@
-From LV Require Import Base.Bytes Gen.GenRange C15.RangeModel.
+From LV Require Import Base.Bytes Gen.GenRange C15.RangeModel Date.DateModel.
 Require Import ExtrOcamlBasic.
-Extraction "model.ml" range_rfc7233 range_parse part_ok covered slice.
+Extraction "model.ml" range_rfc7233 range_parse part_ok covered slice if_modified_since fmt_imf fmt_850 fmt_asctime.
